@@ -18,6 +18,7 @@ type inferJob struct {
 	P        string
 	Training string
 	Target   string
+	Extra    map[string]string // further training files included by the training file
 }
 
 func bookingsOf(text string) (bk []any, accounts map[string]bool, ok bool) {
@@ -61,17 +62,21 @@ func inferCase(bin, root string, id int, jb inferJob) map[string]any {
 	os.MkdirAll(dir, 0o755)
 	defer os.RemoveAll(dir)
 	os.WriteFile(filepath.Join(dir, "train.knut"), []byte(jb.Training), 0o644)
+	for p, c := range jb.Extra {
+		os.MkdirAll(filepath.Dir(filepath.Join(dir, p)), 0o755)
+		os.WriteFile(filepath.Join(dir, p), []byte(c), 0o644)
+	}
 	os.WriteFile(filepath.Join(dir, "target.knut"), []byte(jb.Target), 0o644)
 	os.WriteFile(filepath.Join(dir, "fmt.knut"), []byte(jb.Target), 0o644)
 	os.WriteFile(filepath.Join(dir, "inplace.knut"), []byte(jb.Target), 0o644)
 	run := func(k int, args ...string) core.RunResult {
-		return core.Run(core.RunOpts{Dir: dir, Timeout: 30 * time.Second, Env: []string{fmt.Sprintf("GOMAXPROCS=%d", []int{1, 4, 16}[k%3])}}, bin, args...)
+		return core.Run(core.RunOpts{Dir: dir, Timeout: 30 * time.Second, Env: []string{fmt.Sprintf("GOMAXPROCS=%d", []int{1, 4, 16}[k%3]), fmt.Sprintf("VERIF_SCHED_SEED=%d", id*31+k)}}, bin, args...)
 	}
 	run(0, "format", "fmt.knut")
 	formatted, _ := os.ReadFile(filepath.Join(dir, "fmt.knut"))
 	r := run(0, "infer", "-a", jb.P, "-t", "train.knut", "target.knut")
 	same := true
-	for k := 1; k < 8; k++ {
+	for k := 1; k < 12; k++ {
 		r2 := run(k, "infer", "-a", jb.P, "-t", "train.knut", "target.knut")
 		if r2.Stdout != r.Stdout || r2.Exit != r.Exit {
 			same = false
@@ -82,7 +87,11 @@ func inferCase(bin, root string, id int, jb inferJob) map[string]any {
 	before, _, _ := bookingsOf(string(formatted))
 	after, _, parses := bookingsOf(r.Stdout)
 	// candidates: accounts of training bookings that do not touch the placeholder (and are no macros)
-	tb, _, _ := bookingsOf(jb.Training)
+	all := jb.Training
+	for _, c := range jb.Extra {
+		all += "\n" + c
+	}
+	tb, _, _ := bookingsOf(all)
 	cset := map[string]bool{}
 	for _, b := range tb {
 		m := b.(map[string]any)
@@ -121,7 +130,7 @@ func C15(c *core.Ctx) {
 	if r := c.TLC(core.TLCOpts{Spec: "MC_Infer", Cfg: "MC_Infer_hazard.cfg", Workers: 4, Timeout: 5 * time.Minute}); r.Violated != "SameEveryRun" {
 		c.Infra("MC_Infer_hazard: expected SameEveryRun to be violated in map order, got %q", r.Violated)
 	}
-	bin := c.Knut("")
+	bin := c.Knut("verif")
 	root := filepath.Join(c.Work, "c15")
 	os.MkdirAll(root, 0o755)
 	rng := rand.New(rand.NewSource(c.Seed))
@@ -170,6 +179,24 @@ func C15(c *core.Ctx) {
 			tg.WriteString("\n// note\n\n")
 		}
 		jobs[i] = inferJob{P: P, Training: tr.String(), Target: tg.String()}
+		if i%3 == 2 {
+			// the training journal split over included files; the same description booked to a
+			// different account in each file: an exact tie between candidates from different files
+			extra := map[string]string{}
+			var main strings.Builder
+			main.WriteString("2020-01-01 open Assets:Bank\n\n")
+			w := words[rng.Intn(len(words))]
+			for f := 0; f < 2+rng.Intn(4); f++ {
+				name := fmt.Sprintf("parts/t%d.knut", f)
+				fmt.Fprintf(&main, "include \"%s\"\n", name)
+				var b strings.Builder
+				for k := 0; k < 1+rng.Intn(2); k++ {
+					fmt.Fprintf(&b, "2020-02-%02d \"%s shop\"\nAssets:Bank %s 7 CHF\n\n", 1+k, w, accts[f%len(accts)])
+				}
+				extra[name] = b.String()
+			}
+			jobs[i] = inferJob{P: P, Training: main.String(), Target: fmt.Sprintf("2020-03-01 \"%s shop\"\nAssets:Bank %s 7 CHF\n", w, P), Extra: extra}
+		}
 	}
 	cases := make([]map[string]any, n)
 	core.Parallel(n, func(i int) { cases[i] = inferCase(bin, root, i+1, jobs[i]) })
